@@ -74,6 +74,10 @@ CLAIMED = {
           "Generated-input search: rows, row text, row numbers, per-character colour class / italics / underline outside transition windows; begin/end exact frame multiples (30 NDF / 30000/1001 DF), never before the line's time code and within the transmission window of the triggering word; channel-2 and field-2 data ignored.",
           "Trusted: vt/ref_608_decoder.py (self-tested on hand-computed scenarios) and vt/ref_608.py tables (verified exhaustively by C17). Grammar productions no encoder emits are labelled classes with some attributes unasserted (see ASSUMPTIONS).",
           "DESIGN.md C08"),
+  "C18": ("Hypothesis structure-aware mutation of corpus and grammar-generated inputs per reader, outcome classifier, full downstream pipeline; atheris (libFuzzer) campaigns per reader in the thorough tier",
+          "Fuzzing: every reader on valid, mutated and degenerate inputs must return a document, return None after a fatal log record, or raise ParseError / ValueError / struct.error / UnicodeDecodeError; every returned document must survive significant times, snapshots (cached and uncached), the generated sequence, the LCD filter and all writers under all configurations; per-case watchdog for termination.",
+          "Sampling only. Allowed exception set transcribed from the property. Known findings: WebVTT ruby crash families (C11) and ruby children pruned in snapshots (I-3).",
+          "DESIGN.md C18"),
 }
 NOT_APPLICABLE = {}
 
